@@ -62,11 +62,12 @@ def stat_digest(stat):
     return out
 
 
-def install(model, seeds, with_stats=True, reuse_streams=False):
+def install(model, seeds, with_stats=True, reuse_streams=False, long_lived_producers=False):
     """install the construct/action hooks on a ProgModel.  reuse_streams: the stream objects are created once per
     model and re-seeded with set_seed() for every replication (what a StreamSeedUpdater does in an experiment)."""
     model.seeds = list(seeds)
     model.stream_objects = None
+    model.producer_objects = None
 
     def construct(m):
         from pydsol.core.pubsub import EventProducer
@@ -85,7 +86,14 @@ def install(model, seeds, with_stats=True, reuse_streams=False):
         if with_stats:
             from pydsol.core.statistics import SimCounter, SimTally, SimWeightedTally, SimPersistent
             sim = m.simulator
-            m.prod = {k: EventProducer() for k in "ctwp"}
+            if long_lived_producers:
+                # the data producers outlive a replication (e.g. the model itself is the EventProducer, as in the
+                # repository's own StatisticsModel test); the statistics are still rebuilt by construct_model
+                if m.producer_objects is None:
+                    m.producer_objects = {k: EventProducer() for k in "ctwp"}
+                m.prod = m.producer_objects
+            else:
+                m.prod = {k: EventProducer() for k in "ctwp"}
             m.stats = {
                 "c": SimCounter("cnt", "counter", sim),
                 "t": SimTally("tal", "tally", sim),
